@@ -33,12 +33,13 @@ def cls_of(repo):
 
 def fn_paths(repo, name, **kw):
     c = repo.__dict__.setdefault('_c13', {})
-    if name not in c:
+    key = (name, tuple(sorted(kw.items())))
+    if key not in c:
         mod, fn = repo.find(f'{RL}::RollLog.{name}')
         ev = Evaluator(repo, mod, **kw)
         ev.scope_node = fn
-        c[name] = (mod, fn, ev.run(fn.body))
-    return c[name]
+        c[key] = (mod, fn, ev.run(fn.body))
+    return c[key]
 
 
 @rule('C13.R1', 'a roll-over never overwrites: the file named by new_logfile is opened in exclusive mode, or its timestamp is forced strictly above the newest existing log file before the name is formed')
@@ -308,3 +309,370 @@ def r5(rr, repo):
             rr.ob('reader past the end / empty list: nothing is open, so the identity looked for matches no listed path (None / 0) - an already delivered file is never re-opened from its start',
                   val in ('None', '0', 'False', "''"), mod, b[0].node, witness=val, key='ident-none')
     rr.floor('refresh paths entered inside the list / past the end', min(inside, past), 1, mod, fn)
+
+
+# ---------------------------------------------------------------------------------------------- framing, accounting, decoding
+
+def _mode_of(p: Path):
+    """the log mode a path of write()/read() is about: the literal its mode atoms select ('bin' when every test failed)"""
+    sel = [k for k, v in p.pc if k.startswith("eq('") and k.endswith(('self.mode)', ', mode)')) and v is True]
+    if sel:
+        return sel[0][4:sel[0].index("'", 4)]
+    neg = {k[4:k.index("'", 4)] for k, v in p.pc if k.startswith("eq('") and k.endswith(('self.mode)', ', mode)')) and v is False}
+    rest = {'bin', 'binl', 'txt', 'json'} - neg
+    return rest.pop() if len(rest) == 1 else None
+
+
+def _parse(term: str):
+    try:
+        return ast.parse(term, mode='eval').body
+    except SyntaxError:
+        return None
+
+
+def _is_nl(n):
+    return isinstance(n, ast.Constant) and n.value in (b'\n', '\n')
+
+
+@rule('C13.R6', 'write(): a record reaches the file in ONE write call, framed by exactly one newline terminator in the line modes (none in bin), the sizes that drive roll-over and pruning are the '
+                'length of exactly those bytes, the file is rolled when it reaches file_size, a new file is listed only once it could be opened, and a closed log refuses writes')
+def r6(rr, repo):
+    mod, fn, paths = fn_paths(repo, 'write')
+    rr.paths += len(paths)
+    n = 0
+    modes = set()
+    for p in paths:
+        if p.outcome is not None and p.outcome[0] == 'raise':
+            closed = p.facts.get('is(False, self.write_file)')
+            wr = [e for e in p.events if e.kind == 'call' and e.term.endswith('.write')]
+            rr.ob('a closed log raises and writes nothing', closed is True and not wr, mod, fn, witness=p.pc_text()[-120:], key='closed-raises')
+            continue
+        failed_open = any(k.startswith('raised-in-try@') for k, v in p.pc)
+        wr = [e for e in p.events if e.kind == 'call' and e.term.endswith('.write') and not e.term.startswith('logger')]
+        stores = [e for e in p.events if e.kind == 'store']
+        if failed_open:
+            rr.ob('a log file that cannot be created leaves the log state untouched (nothing listed, nothing counted) and reports 0 bytes', not wr and not stores and not [e for e in p.events if e.kind == 'call' and e.term.endswith('.append')]
+                  and p.outcome is not None and p.outcome[0] == 'return' and p.outcome[1] is not None and U(p.outcome[1]) == '0', mod, fn, witness=p.outcome_text()[:80], key='open-failed')
+            continue
+        if p.facts.get('is(False, self.write_file)') is not False:
+            continue
+        n += 1
+        mode = _mode_of(p)
+        modes.add(mode)
+        rr.ob('every completed write() hands the record to the file in exactly one write call', len(wr) == 1, mod, wr[0].node if wr else fn, witness=f'{len(wr)} write calls', key='one-write')
+        if len(wr) != 1 or mode is None:
+            if mode is None:
+                rr.unresolved('write(): cannot tell which mode a path is about', mod, fn, witness=p.pc_text()[:120], key='mode')
+            continue
+        W = _parse(wr[0].args[0]) if wr[0].args else None
+        wtxt = wr[0].args[0] if wr[0].args else ''
+        if W is None:
+            rr.unresolved('write(): the written value is not an expression the rule can read', mod, wr[0].node, witness=wtxt[:80], key='written-term')
+            continue
+        # framing
+        if mode in ('txt', 'json', 'binl'):
+            ok = isinstance(W, ast.BinOp) and isinstance(W.op, ast.Add) and _is_nl(W.right) and not (isinstance(W.left, ast.BinOp) and _is_nl(W.left.right))
+            rr.ob(f'{mode}: what is written is <payload> + one newline terminator', ok, mod, wr[0].node, witness=wtxt[:100], key=f'frame|{mode}')
+            if ok:
+                pay = W.left
+                if isinstance(pay, ast.Call) and isinstance(pay.func, ast.Attribute) and pay.func.attr == 'encode':
+                    pay = pay.func.value
+                if isinstance(pay, ast.Call) and isinstance(pay.func, ast.Attribute) and pay.func.attr == 'join':
+                    rr.ob(f'{mode}: several records given at once are separated by the same newline', _is_nl(pay.func.value), mod, wr[0].node, witness=U(pay)[:80], key=f'join|{mode}')
+                if mode == 'json':
+                    jd = [c for c in ast.walk(W) if isinstance(c, ast.Call) and U(c.func) in ('json_dumps', 'json.dumps', 'dumps')]
+                    okj = len(jd) == 1 and q.kwarg(jd[0], 'indent') is None
+                    rr.ob('json: one object per line (no indent, so the serialisation cannot contain a raw newline)', okj, mod, wr[0].node, witness=U(jd[0])[:100] if jd else wtxt[:80], key='json-one-line')
+        else:
+            ok = not any(isinstance(x, ast.BinOp) for x in ast.walk(W))
+            rr.ob('bin: the bytes are written as given (nothing appended)', ok, mod, wr[0].node, witness=wtxt[:100], key='frame|bin')
+        # accounting: S = length of exactly W
+        S = {f'len({wtxt})', f'{wtxt}.nbytes'}
+        tot = [e for e in stores if e.term == 'self.logfiles_size']
+        last = [e for e in stores if e.term == 'self.logfiles[-1]']
+        okt = bool(tot) and any(tot[-1].args[0] == f'self.logfiles_size + {s}' for s in S)
+        rr.ob('the running total grows by the number of bytes written', okt, mod, tot[-1].node if tot else fn, witness=tot[-1].args[0][:120] if tot else 'no store', key='account-total')
+        lv = _parse(last[-1].args[0]) if last else None
+        okl = isinstance(lv, ast.Call) and len(lv.args) == 3 and isinstance(_parse(U(lv.args[2])), ast.BinOp) and any(U(lv.args[2]).endswith(f'.size + {s}') for s in S)
+        rr.ob("the newest file's recorded size grows by the number of bytes written (it decides the roll-over and what tell() reports at the end)", okl, mod, last[-1].node if last else fn,
+              witness=last[-1].args[0][:140] if last else 'no store', key='account-file')
+        if last and tot:
+            rr.ob('the record is written before it is counted', p.events.index(wr[0]) < p.events.index(tot[-1]), mod, wr[0].node, key='write-then-count')
+        # return value
+        o = p.outcome
+        rr.ob('write() returns what the file write returned', o is not None and o[0] == 'return' and o[1] is not None and U(o[1]) == f'{wr[0].term}({wtxt})', mod, fn, witness=p.outcome_text()[:120], key='returns-written')
+        # roll-over
+        roll = [(k, v) for k, v in p.pc if k.startswith('ord(self.file_size, ') and '.size + ' in k]
+        closes = [e for e in p.events if e.kind == 'call' and e.term.endswith('.close') and p.events.index(e) > p.events.index(wr[0])]
+        forget = [e for e in stores if e.term == 'self.write_file' and e.args[0] == 'None' and p.events.index(e) > p.events.index(wr[0])]
+        if not roll:
+            rr.violated('a completed write() does not compare the file size with file_size (the log never rolls over)', mod, fn, witness=p.pc_text()[-160:], key='roll-test')
+        else:
+            full = roll[-1][1] in ('<', '=')
+            rr.ob('the file is closed and forgotten exactly when its size reached file_size (the next write starts a new file)', (bool(closes) and bool(forget)) == full, mod, fn,
+                  witness=f'{roll[-1][0][:90]} {roll[-1][1]} closes={len(closes)} forget={len(forget)}', key=f'roll|{"full" if full else "room"}')
+        # new file
+        newf = p.facts.get('isnone(self.write_file)')
+        opens = [e for e in p.events if e.kind == 'call' and e.term == 'open']
+        apps = [e for e in p.events if e.kind == 'call' and e.term == 'self.logfiles.append']
+        if newf is True:
+            ok = len(opens) == 1 and len(apps) == 1 and opens[0].args[0] == f'{apps[0].args[0]}.path' and 'self.new_logfile(' in apps[0].args[0] and p.events.index(opens[0]) < p.events.index(apps[0]) \
+                and opens[0].args[1].strip('\'"') in ('wb', 'xb')
+            rr.ob('no file open: the file named by new_logfile() is created for binary writing and listed after the open succeeded', ok, mod, opens[0].node if opens else fn,
+                  witness=f'opens={[e.args for e in opens]} appends={[e.args for e in apps]}'[:160], key='new-file')
+        elif newf is False:
+            rr.ob('a file is open: no other file is created or listed', not opens and not apps, mod, fn, key='reuse-file')
+    rr.floor('completed write() paths', n, 8, mod, fn)
+    rr.ob('all four modes are framed', modes >= {'bin', 'binl', 'txt', 'json'}, mod, fn, witness=str(sorted(m or '?' for m in modes)), key='modes')
+
+
+@rule('C13.R7', 'read(): the index stays inside the list whenever a file is opened, giving up (None) leaves the reader where it was, returned data is followed by no state change, the list is refreshed at most once per call, '
+                'and each mode strips exactly the terminator write() added')
+def r7(rr, repo):
+    mod, fn, paths = fn_paths(repo, 'read', unroll_while=2)
+    rr.paths += len(paths)
+    n_open = n_none = n_data = n_cont = 0
+    for p in paths:
+        evs = p.events
+        rd = [e for e in evs if e.kind == 'call' and (e.term.endswith('.read') or e.term.endswith('.readline'))]
+        # what the last read returned decides: data -> return it; nothing -> move on / give up
+        def truth(e):
+            v = [val for k, val in p.pc if k == f'truthy({e.term}())']
+            return v[-1] if v else None
+        if p.outcome is not None and p.outcome[0] == 'loopcut':
+            # the loop goes round again: an exhausted (or vanished) file was left behind - closed, forgotten, index advanced by one and still inside the list
+            n_cont += 1
+            vanished_ = any(k.startswith('raised-in-try@') for k, v in p.pc)
+            st = [e for e in evs if e.kind == 'store' and e.term == 'self.read_idx']
+            rf = [e for e in evs if e.kind == 'call' and e.term == 'self.refresh_logfiles']
+            rr.ob('the reader moves to another file only by storing the advanced index (or through a refresh, which re-anchors it)', bool(st) or bool(rf), mod, fn, witness=p.pc_text()[-160:], key='continue-stores-index')
+            if st or rf:
+                idx = 'self.read_idx' if rf and (not st or evs.index(rf[-1]) > evs.index(st[-1])) else st[-1].args[0]
+                rel = [v for k, v in p.pc if k == f'ord(len(self.logfiles), {idx})']
+                rr.ob('the loop continues only with an index that was tested to lie inside the list', bool(rel) and rel[-1] == '>', mod, (st or rf)[-1].node, witness=f'{idx}: {rel[-1:] or "untested"}', key='continue-in-range')
+            if rd:
+                rr.ob('a file is left behind only when it had nothing more to give', truth(rd[-1]) is False, mod, rd[-1].node, witness=p.pc_text()[-160:], key='leave-only-exhausted')
+        # a. bounds
+        for e in evs:
+            if e.kind == 'call' and e.term == 'open' and e.args:
+                m = re.match(r'self\.logfiles\[(.+)\]\.path$', e.args[0])
+                if not m:
+                    rr.unresolved('read(): a file is opened whose name does not come from the file list', mod, e.node, witness=e.args[0][:80], key='open-source')
+                    continue
+                idx = m.group(1)
+                n_open += 1
+                rel = [v for k, v in p.pc[:e.pc_len] if k == f'ord(len(self.logfiles), {idx})']
+                inv = [v for k, v in p.pc[:e.pc_len] if k == f'ord({idx}, len(self.logfiles))']
+                ok = (bool(rel) and rel[-1] == '>') or (bool(inv) and inv[-1] == '<')
+                rr.ob('a file is opened only where the index was tested to lie inside the list (index < number of files)', ok, mod, e.node, witness=p.pc_text(e.pc_len)[-200:], key='index-in-range')
+        o = p.outcome
+        if o is None:
+            rr.violated('read() can fall off its end without returning (a record that was read is dropped and None is delivered)', mod, fn, witness=p.pc_text()[-160:], key='falls-off')
+            continue
+        if o[0] != 'return':
+            continue
+        vanished = any(k.startswith('raised-in-try@') for k, v in p.pc)
+        refreshes = [e for e in evs if e.kind == 'call' and e.term == 'self.refresh_logfiles']
+        auto = [i for i, (k, v) in enumerate(p.pc) if k == 'truthy(self.autorefresh)' and v is True]
+        if auto:
+            # an auto-refreshing reader that ran out of files looks for new ones before it gives up or goes on
+            rr.ob('an auto-refreshing reader at the end of its list refreshes the list (a follower sees files created after it was opened)', bool(refreshes), mod, fn, witness=p.pc_text()[-160:], key='autorefresh-refreshes')
+        rr.ob('the file list is refreshed at most once per call', len(refreshes) <= 1, mod, fn, witness=f'{len(refreshes)} refreshes', key='refresh-once') if refreshes else None
+        for r_ in refreshes:
+            ar = [v for k, v in p.pc[:r_.pc_len] if k == 'truthy(self.autorefresh)']
+            rr.ob('the list is refreshed only for an auto-refreshing reader', bool(ar) and ar[-1] is True, mod, r_.node, key='refresh-guard')
+        isnone = o[1] is None or (isinstance(o[1], ast.Constant) and o[1].value is None)
+        if isnone:
+            n_none += 1
+            closes = [e for e in evs if e.kind == 'call' and e.term.endswith('.close')]
+            st = [e for e in evs if e.kind == 'store' and e.term in ('self.read_idx', 'self.read_file')]
+            if vanished:
+                continue
+            # state may only have moved forward past an EXHAUSTED file that has a successor (close + advance happen together); the final give-up itself changes nothing
+            last_state = max([evs.index(e) for e in closes + st], default=-1)
+            tail_reads = [e for e in evs[last_state + 1:] if e.kind == 'call' and (e.term.endswith('.read') or e.term.endswith('.readline'))]
+            ok = (not closes and not st) or bool(tail_reads) or bool([e for e in evs[last_state + 1:] if e.kind == 'call' and e.term == 'open'])
+            rr.ob('giving up (None) does not move the reader: the file it is on stays open and current, so data appended later is found', ok, mod, fn, witness=p.pc_text()[-200:], key='none-keeps-position')
+        else:
+            n_data += 1
+            reads = [e for e in evs if e.kind == 'call' and (e.term.endswith('.read') or e.term.endswith('.readline'))]
+            if not reads:
+                rr.violated('read() returns data that was not read from a log file', mod, fn, witness=p.outcome_text()[:100], key='data-source')
+                continue
+            rr.ob('data is returned only when the last read produced some', truth(reads[-1]) is True, mod, reads[-1].node, witness=p.pc_text()[-120:], key='data-nonempty')
+            after = [e for e in evs[evs.index(reads[-1]) + 1:] if (e.kind == 'store' and e.term in ('self.read_idx', 'self.read_file')) or (e.kind == 'call' and e.term.endswith('.close'))]
+            rr.ob('after the read that produced the returned data the reader state is left alone (the rest of the file is still to come)', not after, mod, reads[-1].node, key='data-keeps-position')
+            mode = _mode_of(p)
+            blk = reads[-1].term.endswith('.read')
+            d = reads[-1].term + '()'
+            t = U(o[1])
+            want = {
+                ('bin', True): {d}, ('bin', False): {d},
+                ('binl', True): {f"{d}.split(b'\\n')[:-1]"}, ('binl', False): {f'{d}[:-1]'},
+                ('txt', True): {f"{d}.decode().split('\\n')[:-1]"}, ('txt', False): {f'{d}[:-1].decode()'},
+                ('json', True): {f"[json_loads(obj) for obj in {d}.decode().split('\\n')[:-1]]"}, ('json', False): {f'json_loads({d}[:-1].decode())'},
+            }.get((mode, blk))
+            if mode == 'bin':
+                rr.ob('bin: always read as a block', blk, mod, reads[-1].node, key='bin-block')
+            if want is None:
+                rr.unresolved('read(): cannot tell which mode a data path is about', mod, fn, witness=p.pc_text()[:100], key='decode-mode')
+            elif t in want:
+                rr.holds(f'{mode}/{"block" if blk else "line"}: exactly the one terminator write() added is stripped', mod, fn, witness=t[:100], key=f'decode|{mode}|{blk}')
+            else:
+                strips = t.count('[:-1]')
+                bad = (mode != 'bin' and strips != 1) or (mode == 'bin' and t != d) or (mode in ('txt', 'json') and '.decode()' not in t) or (mode == 'json' and 'json_loads(' not in t) or \
+                      (mode in ('bin', 'binl') and '.decode()' in t)
+                if bad:
+                    rr.violated(f'{mode}/{"block" if blk else "line"}: the returned value does not undo the framing of write() (one terminator stripped, text decoded, json parsed)', mod, fn, witness=t[:120], key=f'decode|{mode}|{blk}')
+                else:
+                    rr.unresolved(f'{mode}/{"block" if blk else "line"}: unrecognised decoding expression', mod, fn, witness=t[:120], key=f'decode|{mode}|{blk}')
+    rr.floor('paths on which the read loop goes round again', n_cont, 4, mod, fn)
+    rr.floor('opens in read()', n_open, 2, mod, fn)
+    rr.floor('give-up paths of read()', n_none, 4, mod, fn)
+    rr.floor('data paths of read()', n_data, 8, mod, fn)
+
+
+@rule('C13.R8', 'the files a writer creates are the files a scan finds: the name pattern of scan_logfiles accepts exactly the shape new_logfile gives names, the timestamp is recovered by the inverse scaling, '
+                'only regular files are listed, sizes come from the file system and the list is sorted by timestamp')
+def r8(rr, repo):
+    import re._parser as sp
+    import re._constants as sc
+    mod = repo.module(RL)
+    _, init = repo.find(f'{RL}::RollLog.__init__')
+    _, scan = repo.find(f'{RL}::RollLog.scan_logfiles')
+    _, newf = repo.find(f'{RL}::RollLog.new_logfile')
+    # 1. name template
+    lam = [st for st in mod.tree.body if isinstance(st, ast.Assign) and isinstance(st.value, ast.Lambda) and isinstance(st.targets[0], ast.Name) and isinstance(st.value.body, ast.JoinedStr) and
+           any(c for c in ast.walk(newf) if isinstance(c, ast.Call) and U(c.func) == st.targets[0].id)]
+    if len(lam) != 1:
+        raise Unresolved(f'{RL}: cannot identify the file-name template used by new_logfile ({len(lam)} candidates)')
+    js = lam[0].value.body
+    tmpl = []
+    for v in js.values:
+        if isinstance(v, ast.Constant):
+            tmpl += list(v.value)
+        else:
+            spec = U(v.format_spec).strip('f\'"') if v.format_spec is not None else ''
+            src = U(v.value)
+            if re.fullmatch(r'int\(\w+ \* 1_?000_?000\)', src) or re.fullmatch(r'int\(\w+ \* 1000000\)', src):
+                tmpl.append(('US', spec))
+            elif re.fullmatch(r'\w+\.(month|day|hour|minute|second)', src):
+                tmpl.append(('D', spec))
+            elif re.fullmatch(r'\w+\.year', src):
+                tmpl.append(('Y', spec))
+            else:
+                tmpl.append(('VAR', src))
+    # 2. the pattern
+    pat = [n for n in ast.walk(init) if isinstance(n, ast.Assign) and any(U(t) == 'self.re_logpath' for t in n.targets)]
+    if len(pat) != 1 or not (isinstance(pat[0].value, ast.Call) and U(pat[0].value.func) == 're.compile'):
+        raise Unresolved(f'{RL}: cannot identify the log file name pattern (self.re_logpath)')
+    parg = pat[0].value.args[0]
+    parts = parg.values if isinstance(parg, ast.JoinedStr) else [parg]
+    rx = ''
+    escaped = []
+    for v in parts:
+        if isinstance(v, ast.Constant):
+            rx += v.value
+        elif isinstance(v, ast.FormattedValue) and isinstance(v.value, ast.Call) and U(v.value.func) == 're.escape':
+            escaped.append(U(v.value.args[0]))
+            rx += f'(?P<v{len(escaped)}>V)'
+        else:
+            raise Unresolved(f'{RL}: the name pattern interpolates something other than re.escape(...)')
+    try:
+        items = list(sp.parse(rx))
+    except Exception as exc:
+        raise Unresolved(f'{RL}: name pattern does not parse: {exc}')
+    toks = []
+    for op, av in items:
+        if op is sc.AT:
+            toks.append('^' if av is sc.AT_BEGINNING else '$')
+        elif op is sc.LITERAL:
+            toks.append(chr(av))
+        elif op is sc.SUBPATTERN and av[0] is not None and list(av[3]) and list(av[3])[0][0] is sc.LITERAL and chr(list(av[3])[0][1]) == 'V':
+            toks.append(('VAR', escaped[len([t for t in toks if isinstance(t, tuple) and t[0] == 'VAR'])]))
+        elif op is sc.SUBPATTERN:
+            inner = list(av[3])
+            if len(inner) == 1 and inner[0][0] is sc.MAX_REPEAT and list(inner[0][1][2])[0] == (sc.IN, [(sc.CATEGORY, sc.CATEGORY_DIGIT)]):
+                toks.append(('DIGITS', inner[0][1][0], inner[0][1][1], 'group'))
+            else:
+                toks.append(('GROUP', U(ast.Constant(str(inner)))[:40]))
+        elif op is sc.MAX_REPEAT:
+            lo, hi, sub = av
+            sub = list(sub)
+            if sub == [(sc.IN, [(sc.CATEGORY, sc.CATEGORY_DIGIT)])]:
+                toks.append(('DIGITS', lo, hi))
+            elif (len(sub) == 1 and sub[0][0] is sc.SUBPATTERN) or (lo == 0 and hi == 1 and sub and sub[-1] == (sc.LITERAL, ord('/'))):
+                toks.append(('OPTDIR', lo, hi))      # optional directory part in front of the name
+            else:
+                toks.append(('REP', lo, hi))
+        elif op is sc.IN:
+            toks.append(('IN', ''.join(sorted(chr(v) for o_, v in av if o_ is sc.LITERAL))))
+        else:
+            toks.append((str(op),))
+    # compare
+    ti = [t for t in tmpl]
+    pi = [t for t in toks if t not in ('^', '$') and not (isinstance(t, tuple) and t[0] == 'OPTDIR')]
+    rr.ob('the name pattern is anchored at both ends', toks[:1] == ['^'] and toks[-1:] == ['$'], mod, pat[0], witness=str(toks[:2] + toks[-1:]), key='pattern-anchored')
+    ok = True
+    why = ''
+    i = j = 0
+    while i < len(ti) and j < len(pi):
+        a, b = ti[i], pi[j]
+        if isinstance(a, str):
+            if a != b:
+                ok, why = False, f'literal {a!r} vs {b!r}'
+                break
+            i += 1; j += 1
+        elif a[0] == 'VAR':
+            if a[1] == 'tzs':
+                if not (isinstance(b, tuple) and b[0] == 'IN' and set(b[1]) == {'+', '-'} and j + 1 < len(pi) and pi[j + 1][:3] == ('DIGITS', 4, 4)):
+                    ok, why = False, f'time-zone suffix vs {pi[j:j + 2]}'
+                    break
+                i += 1; j += 2
+            else:
+                if not (isinstance(b, tuple) and b[0] == 'VAR'):
+                    ok, why = False, f'{a} vs {b}'
+                    break
+                i += 1; j += 1
+        elif a[0] == 'US':
+            if not (isinstance(b, tuple) and b[0] == 'DIGITS' and b[1] <= 1 and b[2] >= 20 and len(b) == 4):
+                ok, why = False, f'microsecond field vs {b}'
+                break
+            i += 1; j += 1
+        elif a[0] in ('D', 'Y'):
+            width = 4 if a[0] == 'Y' else int(a[1].lstrip('0') or 0) if a[1] else 0
+            if not (isinstance(b, tuple) and b[0] == 'DIGITS' and b[1] == b[2] == width):
+                ok, why = False, f'{a} vs {b}'
+                break
+            i += 1; j += 1
+    if ok and (i != len(ti) or j != len(pi)):
+        ok, why = False, f'lengths differ: template {len(ti)} fields, pattern {len(pi)}'
+    rr.ob('every name new_logfile() can produce matches the scan pattern field by field (prefix, microseconds, date, time, zone, suffix)', ok, mod, pat[0], witness=why or f'{len(ti)} fields agree', key='name-agreement')
+    # prefix / suffix are the fixed-up ones on both sides
+    calls = [c for c in ast.walk(newf) if isinstance(c, ast.Call) and U(c.func) == lam[0].targets[0].id]
+    okp = bool(calls) and len(calls[0].args) == 5 and U(calls[0].args[3]) == 'self.prefix' and U(calls[0].args[4]) == 'self.suffix' and escaped == ['prefix', 'suffix']
+    stp = {U(t): U(n.value) for n in ast.walk(init) if isinstance(n, ast.Assign) for t in n.targets}
+    okp = okp and stp.get('self.prefix', '').startswith('prefix = ') is False and 'self.prefix' in stp and 'self.suffix' in stp
+    rr.ob('writer and scanner use the same (fixed-up) prefix and suffix', okp, mod, pat[0], witness=f'escaped={escaped}', key='same-affixes')
+    # 3. inverse scaling
+    ts = [c for c in ast.walk(scan) if isinstance(c, ast.Call) and U(c.func) == 'RollLogFile']
+    rr.floor('RollLogFile constructions in scan_logfiles', len(ts), 1, mod, scan)
+    for c in ts:
+        a0 = U(c.args[0]) if c.args else ''
+        rr.ob('the timestamp of a scanned file is its first name field divided by 1 000 000 (the inverse of the writer)', re.fullmatch(r'int\(\w+\.group\(1\)\) / 1_?000_?000', a0) is not None, mod, c, witness=a0, key='inverse-scale')
+        a2 = U(c.args[2]) if len(c.args) > 2 else ''
+        rr.ob('the size of a scanned file comes from the file system', 'os.stat(' in a2 and 'st_size' in a2 or 'getsize(' in a2, mod, c, witness=a2, key='size-from-fs')
+        g = q.guards_of(c, stop=scan)
+        gt = ' && '.join(U(t) for t, pol in g if pol)
+        rr.ob('only regular files whose name matches the pattern are listed', 'os.path.isfile(' in gt and '.match(' in gt, mod, c, witness=gt[:120], key='scan-filter')
+    sorts = [c for c in ast.walk(scan) if isinstance(c, ast.Call) and isinstance(c.func, ast.Attribute) and c.func.attr == 'sort' and not c.keywords] + \
+            [c for c in ast.walk(scan) if isinstance(c, ast.Call) and U(c.func) == 'sorted' and not c.keywords]
+    cdef = repo.find(f'{RL}::RollLogFile')[1]
+    first = [st.target.id for st in cdef.body if isinstance(st, ast.AnnAssign)][:1]
+    rr.ob('the list is sorted and the sort key starts with the timestamp (first field of RollLogFile)', bool(sorts) and first == ['timestamp'], mod, scan, witness=f'sorts={len(sorts)} first field={first}', key='sorted-by-time')
+    stores = {U(t): U(n.value) for n in ast.walk(scan) if isinstance(n, ast.Assign) for t in n.targets}
+    rr.ob('the scan replaces both the list and the running total', 'self.logfiles' in stores and 'self.logfiles_size' in stores, mod, scan, witness=str({k: v for k, v in stores.items() if k.startswith('self.')}), key='scan-stores')
+    tot = stores.get('self.logfiles_size')
+    acc = [n for n in ast.walk(scan) if (isinstance(n, ast.AugAssign) and isinstance(n.op, ast.Add) and U(n.target) == tot) or
+           (isinstance(n, ast.Assign) and len(n.targets) == 1 and U(n.targets[0]) == tot and isinstance(n.value, ast.BinOp) and isinstance(n.value.op, ast.Add) and tot in (U(n.value.left), U(n.value.right)))]
+    rr.ob('the running total is the sum of the listed sizes', bool(acc), mod, scan, key='scan-total')
